@@ -472,6 +472,7 @@ def _run_chunk(cmd, lines, env=None, timeout=600):
     data = ("\n".join(lines) + "\n").encode("utf-8")
     e = dict(os.environ)
     e["RUST_BACKTRACE"] = "0"
+    e.setdefault("TK_TMP", os.path.join(BUILD, "tmp"))
     if env:
         e.update(env)
     p = subprocess.run(cmd, input=data, stdout=subprocess.PIPE, stderr=subprocess.PIPE, env=e, timeout=timeout)
